@@ -250,4 +250,4 @@ Example C16_example :
   end = true.
 Proof. vm_compute. reflexivity. Qed.
 Example C16_example_hyps : proper ex_s /\ identity_sampler unit (fun _ c => sampling_method c) (fun _ _ _ _ => Err) ex_s ex_cfg (fun _ => tt).
-Proof. split; [repeat split; simpl; lia|]. intros j _. reflexivity. Qed.
+Proof. split; [repeat split; vm_compute; discriminate|]. intros j _. reflexivity. Qed.
